@@ -538,9 +538,13 @@ class SchemaGen(object):
         rng = self.rng
         for _ in range(rng.randint(0, 2)):
             locs = rng.sample(["FIELD", "FRAGMENT_SPREAD", "INLINE_FRAGMENT", "QUERY", "MUTATION",
-                               "FRAGMENT_DEFINITION", "FIELD_DEFINITION", "OBJECT", "ENUM_VALUE"], rng.randint(1, 3))
+                               "FRAGMENT_DEFINITION", "FIELD_DEFINITION", "OBJECT", "ENUM_VALUE",
+                               "SUBSCRIPTION", "SCHEMA", "SCALAR", "ARGUMENT_DEFINITION",
+                               "INTERFACE", "UNION", "ENUM", "INPUT_OBJECT", "INPUT_FIELD_DEFINITION"], rng.randint(1, 3))
             if "FIELD" not in locs and rng.random() < 0.7:
                 locs.append("FIELD")
+            if self.features.get("variable_definition_location") and rng.random() < 0.1:
+                locs.append("VARIABLE_DEFINITION")     # accepted by the parser and by Directive()
             name = self.fresh("dir")
             if rng.random() < 0.15:
                 # types and directives live in separate namespaces
